@@ -378,8 +378,11 @@ func TestC05_ArrivalOrdersEnumerated(t *testing.T) {
 			maxVals := 2
 			if k >= 3 {
 				maxVals = 1
+				if row.Family == "zip" {
+					maxVals = 2 // queues: a source that runs ahead by two while the others catch up
+				}
 			}
-			if rt.Thorough() {
+			if rt.Thorough() && !(k >= 3 && row.Family == "zip") {
 				maxVals++
 			}
 			if k == 0 {
